@@ -80,6 +80,19 @@ class C31(Property):
                    'seq': ['run_model', 'compute_totals', 'total_coloring', 'compute_totals'] + mid +
                           ['compute_totals', 'run_model'],
                    'qseed': rng.randrange(10 ** 6), 'randomize': [True, rng.random() < 0.5]}
+        # family: stock ExecComps with array variables appended to the model (partial coloring
+        # computed by the component itself at the first linearization, on complex vectors)
+        for _ in range(8 if tier == 'quick' else 150):
+            seq = ['run_model', rng.choice(['compute_totals', 'check_totals', 'jacvec', 'run_linearize'])]
+            for _ in range(rng.randint(1, 3)):
+                seq.append(rng.choice(QUERIES))
+            seq.append('run_model')
+            yield {'gen_seed': rng.randrange(10 ** 9),
+                   'opts': {'safe_indices': True, 'implicit': False, 'scaling': rng.random() < 0.3,
+                            'array_scaling': True, 'cycles': False, 'units': rng.random() < 0.5},
+                   'cfg': {'nonlinear': None, 'linear': rng.choice([None, 'direct']),
+                           'mode': rng.choice(['fwd', 'rev'])},
+                   'seq': seq, 'qseed': rng.randrange(10 ** 6), 'exec_tail': rng.randint(1, 2)}
         for _ in range(n):
             cyc = rng.random() < 0.25
             seq = ['run_model']
@@ -115,6 +128,23 @@ class C31(Property):
                 v = copy.deepcopy(voi)
                 p, info = gm.build_problem(md, cfg=case['cfg'])
                 gm.add_voi(p, md, v)
+                if case.get('exec_tail'):
+                    # stock ExecComps with array variables (they compute their own partial coloring
+                    # at the first linearization) reading outputs of the generated model
+                    k = 0
+                    for ci, c in enumerate(md['comps']):
+                        if c['kind'] == 'ivc' or k >= case['exec_tail']:
+                            continue
+                        od = c['outs'][0]
+                        shp = tuple(od['shape'])
+                        xc = om.ExecComp('z = 0.5 * y * y + 3.0 * y + w',
+                                         y={'shape': shp, 'units': od.get('units')},
+                                         w={'val': np.full(shp, 0.25)}, z={'shape': shp})
+                        p.model.add_subsystem('xc%d' % k, xc)
+                        p.model.connect(gm.out_root_name(md, ci, od['name']), 'xc%d.y' % k)
+                        p.model.add_constraint('xc%d.z' % k, upper=1e9)
+                        v['responses'].append({'name': 'xc%d.z' % k})
+                        k += 1
                 p.driver = om.ScipyOptimizeDriver(optimizer='SLSQP', disp=False)
                 p.driver.declare_coloring(show_summary=False, show_sparsity=False,
                                           randomize_seeds=case['randomize'][0] if 'randomize' in case
@@ -251,6 +281,8 @@ class C31(Property):
         b = ['impl_error' if 'error' in impl else 'impl_ok', 'cyclic' if md.get('cyclic') else 'acyclic']
         for st in impl.get('steps', []):
             b.append('call=' + st['call'] + (':error' if 'error' in st else ''))
+        if case.get('exec_tail'):
+            b.append('stock_execcomp_with_arrays_appended')
         return b
 
     # -- model -----------------------------------------------------------------------------------
